@@ -40,6 +40,8 @@ def worker(args, scratch):
             guid = "dddddddd-%04x-4000-8000-%012x" % (args["shard"], i)
             bits = r.choice([128, 256, 256, 512, 384])        # the key is a hex string of whatever length the host chose
             keys[guid] = "%0*x" % (bits // 4, r.getrandbits(bits))
+            if i % 37 == 19:
+                keys[guid] = ""      # a key document with an empty key value is a key document too (the empty string is valid hex): its MACs are made with the empty key
             klist.append({"authorizationScheme": "Azure-HMAC-SHA256", "guid": guid, "incarnationId": i, "issued": "2024-01-01T00:00:00Z", "key": keys[guid]})
         w.key(klist[0]["guid"], klist[0]["key"])
         if args["own_calls"]:
